@@ -530,7 +530,13 @@ class FuncIntervals:
                         return None
                     self._assign(out, st.target, None, iv)
                 elif isinstance(it, ast.Call) and unparse(it.func) == "enumerate" and isinstance(st.target, ast.Tuple):
-                    self._assign(out, st.target.elts[0], None, IV(0, None))
+                    start = IV.const(0)
+                    if len(it.args) > 1:
+                        start = self.eval(it.args[1], env)
+                    for kw in it.keywords:
+                        if kw.arg == "start":
+                            start = self.eval(kw.value, env)
+                    self._assign(out, st.target.elts[0], None, IV(start.lo, None))
                     ev = self._elem_iv(it.args[0], env)
                     self._assign(out, st.target.elts[1], None, ev)
                     if isinstance(it.args[0], ast.Name) and all(isinstance(x, ast.Name) for x in st.target.elts):
@@ -559,6 +565,21 @@ class FuncIntervals:
         elif isinstance(a, ast.ExceptHandler):
             if a.name:
                 out[a.name] = IV.top()
+        elif isinstance(a, ast.Delete):
+            for tg in a.targets:
+                base = tg.value if isinstance(tg, ast.Subscript) else tg
+                if isinstance(base, ast.Name):
+                    self._kill(out, base.id)
+        # a method that can shrink (or arbitrarily change) a container invalidates what is known about its length;
+        # append / extend / add only grow it, so lower bounds stay valid and upper bounds go
+        for c in (x for x in ast.walk(a) if isinstance(a, ast.AST) and isinstance(x, ast.Call) and isinstance(x.func, ast.Attribute) and isinstance(x.func.value, ast.Name)) if isinstance(a, ast.AST) else ():
+            name, meth = c.func.value.id, c.func.attr  # type: ignore[attr-defined]
+            k = f"len({name})"
+            if k in out:
+                if meth in ("append", "extend", "add", "insert", "update", "setdefault"):
+                    out[k] = IV(out[k].lo, None)
+                elif meth in ("pop", "popitem", "clear", "remove", "discard", "release"):
+                    del out[k]
         return out
 
     def _elem_iv(self, it: ast.expr, env: Env) -> IV:
@@ -583,6 +604,15 @@ class FuncIntervals:
                 if not self._apply_cmp(out, a, o, b):
                     return None
             return out
+        if isinstance(cond, ast.Name) and (cond.id in self.bytes_like or f"len({cond.id})" in out or self._seq_like(cond.id)):
+            # truthiness of a sequence is `len(x) != 0`
+            k2 = f"len({cond.id})"
+            cur2 = out.get(k2, IV(0, None)).meet(IV(0, None))
+            cur2 = cur2.meet(IV(1, None)) if pol else cur2.meet(IV(0, 0))
+            if cur2.is_bottom():
+                return None
+            out[k2] = cur2
+            return out
         key = self._key(cond)
         if key is not None and key in out or (key is not None and self._intlike(cond)):
             cur = self.eval(cond, env)
@@ -598,6 +628,21 @@ class FuncIntervals:
                 return None
             out[key] = cur
         return out
+
+    def _seq_like(self, name: str) -> bool:
+        """The local is only ever bound to displays / slices / memoryview / bytes constructors: a sequence, not a number."""
+        vals = [n.value for n in ast.walk(self.func.node) if isinstance(n, (ast.Assign, ast.AnnAssign)) and n.value is not None and any(isinstance(x, ast.Name) and x.id == name and isinstance(x.ctx, ast.Store) for tg in (n.targets if isinstance(n, ast.Assign) else [n.target]) for x in [tg])]
+        used_as_seq = any((isinstance(n, ast.Subscript) and isinstance(n.value, ast.Name) and n.value.id == name) or (isinstance(n, ast.Call) and unparse(n.func) == "len" and len(n.args) == 1 and isinstance(n.args[0], ast.Name) and n.args[0].id == name) for n in ast.walk(self.func.node))
+        arith = any(isinstance(n, ast.BinOp) and any(isinstance(x, ast.Name) and x.id == name for x in (n.left, n.right)) and not isinstance(n.op, ast.Add) for n in ast.walk(self.func.node))
+        if used_as_seq and not arith:
+            return True
+        if not vals:
+            return False
+        for v in vals:
+            ok = isinstance(v, (ast.List, ast.Tuple, ast.ListComp)) or (isinstance(v, ast.Subscript) and isinstance(v.slice, ast.Slice)) or (isinstance(v, ast.Call) and unparse(v.func) in ("memoryview", "bytes", "bytearray", "list", "tuple"))
+            if not ok:
+                return False
+        return True
 
     def _intlike(self, e: ast.expr) -> bool:
         k = self._key(e)
